@@ -50,16 +50,17 @@ def judge_c11(scn, run) -> Tuple[List[tuple], Dict[str, int]]:
             continue
         today = localtime.local_dt(z, o["wall"]).date()
         cands = localtime.epochs_for(z, today, int(s[:2]), int(s[3:]))
-        today1 = localtime.local_dt(z, o.get("wall1", o["wall"])).date()
-        if today1 != today:
-            cnt(c, "probe:clock-crossed-midnight-during-call")
-            more = localtime.epochs_for(z, today1, int(s[:2]), int(s[3:]))
-            if not more or not cands:
-                cnt(c, "grey:nonexistent-local-time")      # the time does not exist on one of the two possible dates
-                continue
-            cands = cands + [e for e in more if e not in cands]
-        if not cands:
-            cnt(c, "grey:nonexistent-local-time")
+        gap = not cands
+        for w1 in list(o.get("walls", [])) + [o.get("wall1", o["wall"])]:
+            today1 = localtime.local_dt(z, w1).date()
+            if today1 != today:
+                cnt(c, "probe:clock-crossed-midnight-during-call")
+                more = localtime.epochs_for(z, today1, int(s[:2]), int(s[3:]))
+                if not more:
+                    gap = True
+                cands = cands + [e for e in more if e not in cands]
+        if gap or not cands:
+            cnt(c, "grey:nonexistent-local-time")          # the time does not exist on one of the possible dates
             continue
         if len(cands) > 1:
             cnt(c, "probe:ambiguous-local-time")
@@ -141,9 +142,9 @@ def judge_c13(scn, run) -> Tuple[List[tuple], Dict[str, int]]:
             return acc
 
         accept = accept_at(o["wall"])
-        w1 = o.get("wall1", o["wall"])
-        if w1 != o["wall"]:
-            # the clock moved while the call ran (ticking-clock runs): correct for either end of the call
+        # the clock may move while the call runs (ticking-clock runs): what is right for ANY reading the call took
+        # (or for either end of the call) is accepted
+        for w1 in list(o.get("walls", [])) + [o.get("wall1", o["wall"])]:
             d1 = localtime.local_dt(z, w1)
             if (d1.date(), d1.hour, d1.minute) != (d.date(), d.hour, d.minute):
                 cnt(c, "probe:clock-crossed-minute-during-call")
